@@ -24,6 +24,10 @@ from pvc import src as S, kern as K, twin as T, ev as E, solve
 from pvc.val import *  # noqa
 from pvc import val as V
 
+# property-level native oracle used as the replay of refuted obligations that carry no model-specific replay
+FALLBACK_REPLAY = {"handler": "bounded", "input": {"what": "mass_balance"},
+                   "expected": "reported mass flows balance at every supplied junction and over the network (1e-7 kg/s)"}
+
 BSM = "pandapipes.pf.build_system_matrix"
 IT = "pandapipes.pf.internals_toolbox"
 BR = "pandapipes.idx_branch"
@@ -607,6 +611,22 @@ def node_load_column(ctx):
                req + [o >= 0, o < NN, c >= 0, c < NCN,
                       z3.Or(c != N_LOAD, z3.ForAll([k], z3.Implies(z3.And(k >= 0, k < u.n), L.f(u.f(k)) != o)))],
                K.eq_val(npf.f(o, c), np0.f(o, c)))
+
+
+@unit("C01", "bounded/mass_balance", functions=["pandapipes.pipeflow:pipeflow"], engine="bounded")
+def mass_balance_bounded(ctx):
+    """property-level bounded stand-in (and the fallback replay of this property's refuted obligations): whole
+    calculations, balance computed from the result tables alone"""
+    from pvc.harness import venv_run
+    inp = {"what": "mass_balance"}
+    res = venv_run("bounded.py", inp, timeout=3000)
+    ctx.bounded("reported-flows-balance-at-supplied-junctions-and-over-the-network", res["ok"],
+                "36 calculations: meshed 7-junction net (parallel pipes, 1/2/3 sections, open / closed valve, out-of-service pipe, "
+                "sinks incl. scaled / out of service / unsupplied, source, mass storage, two ext grids sharing a junction + a third, "
+                "one out of service) x {water, lgas} x 2 junction labellings x {hydraulics, sequential}; circulation-pump loop with "
+                "heat exchanger and flow control x {closed, make-up ext grid at the flow junction, two of them} x 3 modes; 3 transient "
+                "steps on one net; use_numba False/True; node and network balance <= 1e-7 kg/s from the result tables",
+                res["cases"], witness=res["witness"], replay={"handler": "bounded", "input": inp} if not res["ok"] else None)
 
 
 @unit("C01", "lean_lemmas", engine="Lean")
